@@ -527,6 +527,37 @@ impl Storage {
             .expect("db put matched blocks should be ok");
     }
 
+    /// Adds the matched blocks of a filtered range and moves the min filtered block number to the end
+    /// of that range in one write: if the process stopped between the two writes, the range would be
+    /// filtered again and its record replaced while the blocks of the old record are being downloaded.
+    pub fn add_matched_blocks_and_update_min_filtered_block_number(
+        &self,
+        start_number: u64,
+        blocks_count: u64,
+        // (block-hash, proved)
+        matched_blocks: Vec<(Byte32, bool)>,
+        min_filtered_block_number: BlockNumber,
+    ) {
+        assert!(!matched_blocks.is_empty());
+        let mut key = Key::Meta(MATCHED_FILTER_BLOCKS_KEY).into_vec();
+        key.extend(start_number.to_be_bytes());
+
+        let mut value = blocks_count.to_le_bytes().to_vec();
+        for (block_hash, proved) in matched_blocks {
+            value.extend(block_hash.as_slice());
+            value.push(u8::from(proved));
+        }
+        let mut batch = self.batch();
+        batch.put(key, value).expect("batch put should be ok");
+        batch
+            .put(
+                Key::Meta(MIN_FILTERED_BLOCK_NUMBER).into_vec(),
+                min_filtered_block_number.to_le_bytes(),
+            )
+            .expect("batch put should be ok");
+        batch.commit().expect("batch commit should be ok");
+    }
+
     #[allow(clippy::type_complexity)]
     fn get_matched_blocks(&self, direction: Direction) -> Option<(u64, u64, Vec<(Byte32, bool)>)> {
         let key_prefix = Key::Meta(MATCHED_FILTER_BLOCKS_KEY).into_vec();
